@@ -63,9 +63,10 @@ func run(r *core.Run) {
 		"values": core.Pick(r, "all values with <= 3 nodes (3 node values without the 64 KiB strings)", "all values with <= 4 nodes") + " + arrays/maps of n zeros for n in {0,1,15,16,23,24,31,32,33,255,256}",
 		"encodings": core.Pick(r,
 			"1 and 2 node values and the grid: full product of every wire form of every node incl. every <=2 chunk split of strings <= 64 bytes (boundary splits for longer ones); 3 node values: every form of every node and container header while the other nodes keep their shortest form",
-			"<= 3 node values: full product of every wire form of every node; 4 node values: the shortest encoding"),
+			"1 and 2 node values and the grid as in the quick tier; 3 node values: full product of every width/length/float-size/definite/indefinite form of every node (strings: one chunk and the middle two chunk split); 4 node values: the shortest encoding"),
 		"truncation":    "every proper byte prefix (including the empty input) of every encoding <= 64 bytes through pkg/decode directly; additionally through from_F for the one node values and the first encoding of the two node values",
-		"trailing_data": "one 0x00 byte, and a second copy of the value, after every encoding: direct decode (text: must fail; binary: exactly one root gap field over the extra bits and an otherwise identical tree) and, for 1/2 node values and the grid up to 4 KiB, through jq (torepr unchanged, ._gap fields, tovalue of the tree)",
+		"drivers":       "binary formats: every intact encoding through a jq driver that is the body of from_F (_decode + raise on ._error) followed by torepr; the documented from_F itself for the one node values, the grid and the first encoding of the two node values; text formats always through from_F",
+		"trailing_data": "one 0x00 byte, and a second copy of the value, after every encoding: direct decode (text: must fail; binary: exactly one root gap field over the extra bits and an otherwise identical tree) and, for the one node values, the grid and the first encoding of the two node values (inputs up to 4 KiB), through jq (torepr unchanged, ._gap fields, tovalue of the tree)",
 	})
 	only := os.Getenv("VERIF_ONLY")
 	t0 := time.Now()
@@ -95,38 +96,52 @@ func run(r *core.Run) {
 		return
 	}
 	var idx int64
-	for _, sp := range specs() {
-		if only != "" && only != sp.name {
-			// keep the global index stable
-			idx += int64(len(sp.cases(r.Thorough())))
-			continue
-		}
-		rn := newRunner(r, sp)
-		cases := sp.cases(r.Thorough())
-		done, stopped := 0, false
-		for _, vc := range cases {
-			idx++
-			if !r.Mine(idx) {
+	// phase 0: values with <= 3 nodes and the grid, phase 1 (thorough): 4 node values
+	for phase := 0; phase < 2; phase++ {
+		for _, sp := range specs() {
+			var cases []valCase
+			for _, vc := range sp.cases(r.Thorough()) {
+				if vc.m.canon == (phase == 1) {
+					cases = append(cases, vc)
+				}
+			}
+			if len(cases) == 0 {
 				continue
 			}
-			if r.Expired() {
-				stopped = true
-				break
+			name := sp.name
+			if phase == 1 {
+				name += ":4-nodes"
 			}
-			r.Case(idx, sp.name+" "+vc.v.String())
-			vc := vc
-			rn.value(&vc)
-			done++
+			if only != "" && only != sp.name {
+				idx += int64(len(cases)) // keep the global index stable
+				continue
+			}
+			rn := newRunner(r, sp)
+			done, stopped := 0, false
+			for _, vc := range cases {
+				idx++
+				if !r.Mine(idx) {
+					continue
+				}
+				if r.Expired() {
+					stopped = true
+					break
+				}
+				r.Case(idx, sp.name+" "+vc.v.String())
+				vc := vc
+				rn.value(&vc)
+				done++
+			}
+			rn.finish()
+			if stopped {
+				r.NotExhaustive("deadline reached inside " + name)
+				r.Count("values_not_reached:"+name, int64(len(cases)-done*max(1, r.ShardN))/int64(max(1, r.ShardN)))
+				return
+			}
+			r.Section(name)
+			r.Extra("values:"+name, len(cases))
+			r.Logf("%s: %d of %d values on this shard, %v", name, done, len(cases), time.Since(t0).Round(time.Millisecond))
 		}
-		rn.finish()
-		if stopped {
-			r.NotExhaustive("deadline reached inside format " + sp.name)
-			r.Count("values_not_reached:"+sp.name, int64(len(cases)-done)/int64(max(1, r.ShardN)))
-			break
-		}
-		r.Section(sp.name)
-		r.Extra("values:"+sp.name, len(cases))
-		r.Logf("%s: %d of %d values on this shard, %v", sp.name, done, len(cases), time.Since(t0).Round(time.Millisecond))
 	}
 }
 
